@@ -77,11 +77,23 @@ def plan(seed, subbatch):
     ops += world.schedule(feed, rows[k:], sizes, extras)
     fired["preload_%s" % ("none" if k == 0 else "one" if k == 1 else "all" if k == len(rows) else "some")] += 1
     return {"format": 1, "property": ID, "seed": seed, "subbatch": subbatch,
-            "config": {"route": route, "tf": tf, "base_s": base_s},
+            "config": {"route": route, "tf": tf, "base_s": base_s,
+                       # timezone-aware streams (fixed offsets that do not divide the larger timeframes)
+                       "utc_offset_min": cfg.choice((None, None, None, 60, 330, -210, 345))},
             "ops": ops, "fired": dict(fired)}
 
 
 def execute(trace, ctx=None):
+    from .. import catalogue
+
+    catalogue.TZ_OFFSET_MIN = trace["config"].get("utc_offset_min")
+    try:
+        return _execute(trace)
+    finally:
+        catalogue.TZ_OFFSET_MIN = None
+
+
+def _execute(trace):
     def body(run):
         cfg = trace["config"]
         tf = cfg["tf"]
